@@ -363,6 +363,28 @@ theorem bystander_contents {s s' : State} {op : Op} (hi : Inv s) (h : step s op 
     unfold readArr
     simp only [hch', hch, hv]
 
+/-- the same for ANY bystander, in particular a range view: it is enough that every chunk it points into has an owner
+    before and after the operation (the view's owner survives) -/
+theorem bystander_contents_view {s s' : State} {op : Op} (hi : Inv s) (h : step s op = .ok s') (hw : op.writes = false)
+    {c : Nat} {cc : Cont} (hc : c ∉ op.targets) (hsc : s.slot c = some cc)
+    (hlive : ∀ id off, Ptr.at id off ∈ cc.ptrs → id ∈ s.ownIds ∧ id ∈ s'.ownIds) :
+    s'.slot c = some cc ∧ cc.obs s'.pool = cc.obs s.pool := by
+  have hi' := inv_step hi h
+  have hsc' : s'.slot c = some cc := by rw [step_frame h c hc]; exact hsc
+  have hb := step_back h hw
+  refine ⟨hsc', ?_⟩
+  apply obs_congr
+  intro q hq n
+  cases q with
+  | null => rfl
+  | «at» id off =>
+    obtain ⟨ho, ho'⟩ := hlive id off hq
+    obtain ⟨ch', hch'⟩ := owned_present hi' ho'
+    obtain ⟨ch0, hch0⟩ := owned_present hi ho
+    obtain ⟨ch, hch, hv⟩ := hb.2 id (get_lt hch0) ch' hch'
+    unfold readArr
+    simp only [hch', hch, hv]
+
 theorem readArr_copyArrs_other (l : List (Ptr × Ptr × Nat)) (p : Pool) (q : Ptr) (n : Nat)
     (h : ∀ x ∈ l, ∀ id o o', x.1 = .at id o → q ≠ .at id o') :
     readArr (copyArrs p l) q n = readArr p q n := by
